@@ -1395,4 +1395,71 @@ theorem congruent_p_iff' (thr : Nat) (a0 c0 d : Int) : congruent_p thr a0 c0 d =
     · simp only [hsw, if_false]
       exact cong_body_iff thr a0 c0 d hd
 
+/-! ### mpn contract models -/
+
+theorem val_toLimbs : ∀ (k v : Nat), val (toLimbs k v) = v % B ^ k ∧ (toLimbs k v).length = k ∧ Limbs (toLimbs k v)
+  | 0, v => by simp [toLimbs, Nat.mod_one, Limbs_nil]
+  | k + 1, v => by
+    obtain ⟨ih1, ih2, ih3⟩ := val_toLimbs k (v / B)
+    have hB : 0 < B := by unfold B; decide
+    refine ⟨?_, by simp [toLimbs, ih2], ?_⟩
+    · simp only [toLimbs, val_cons, ih1]
+      rw [Nat.pow_succ, Nat.mul_comm (B ^ k) B, Nat.mod_mul]
+    · simp only [toLimbs]
+      exact Limbs_cons.mpr ⟨Nat.mod_lt _ hB, ih3⟩
+
+theorem val_ge_of_topNonzero {d : List Nat} (h : topNonzero d = true) : B ^ (d.length - 1) ≤ val d := by
+  unfold topNonzero at h
+  cases hl : d.getLast? with
+  | none => simp [hl] at h
+  | some x =>
+    simp only [hl, bne_iff_ne, ne_eq] at h
+    obtain ⟨ys, hd⟩ := List.getLast?_eq_some_iff.mp hl
+    subst hd
+    rw [val_append]
+    simp only [List.length_append, List.length_cons, List.length_nil, val_cons, val_nil]
+    have hx : 1 ≤ x := Nat.pos_of_ne_zero h
+    have : ys.length + (0 + 1) - 1 = ys.length := by omega
+    rw [this]
+    have : B ^ ys.length * 1 ≤ B ^ ys.length * (x + B * 0) := Nat.mul_le_mul_left _ (by omega)
+    omega
+
+/-- the contract model of mpn_tdiv_qr is total on the documented domain and its outputs are the exact
+    quotient and remainder: nn-dn+1 limbs always hold ⌊n/d⌋ -/
+theorem mpnTdivQr_contract (n d : List Nat) (hn : Limbs n) (hd : Limbs d) (ht : topNonzero d = true) (hl : d.length ≤ n.length) :
+    ∃ q r, mpnTdivQr n d = some (q, r) ∧ q.length = n.length - d.length + 1 ∧ r.length = d.length ∧ Limbs q ∧ Limbs r ∧
+      val q = val n / val d ∧ val r = val n % val d ∧ val n = val q * val d + val r ∧ val r < val d := by
+  have hdpos : 0 < val d := Nat.lt_of_lt_of_le (Bpow_pos _) (val_ge_of_topNonzero ht)
+  unfold mpnTdivQr
+  have hc : ¬ (¬ topNonzero d = true ∨ n.length < d.length) := by
+    intro h; rcases h with h | h
+    · exact h ht
+    · omega
+  simp only [hc, if_false]
+  obtain ⟨q1, q2, q3⟩ := val_toLimbs (n.length - d.length + 1) (val n / val d)
+  obtain ⟨r1, r2, r3⟩ := val_toLimbs d.length (val n % val d)
+  have hrlt : val n % val d < val d := Nat.mod_lt _ hdpos
+  have hdlt := val_lt d hd
+  have hnlt := val_lt n hn
+  have hqfit : val n / val d < B ^ (n.length - d.length + 1) := by
+    rw [Nat.div_lt_iff_lt_mul hdpos]
+    have hge := val_ge_of_topNonzero ht
+    have hdl : 1 ≤ d.length := by
+      rcases Nat.eq_zero_or_pos d.length with h0 | h0
+      · have : d = [] := List.length_eq_zero_iff.mp h0
+        subst this; simp [topNonzero] at ht
+      · exact h0
+    have e : B ^ n.length = B ^ (n.length - d.length + 1) * B ^ (d.length - 1) := by
+      rw [← Nat.pow_add]; congr 1; omega
+    calc val n < B ^ n.length := hnlt
+      _ = B ^ (n.length - d.length + 1) * B ^ (d.length - 1) := e
+      _ ≤ B ^ (n.length - d.length + 1) * val d := Nat.mul_le_mul_left _ hge
+  refine ⟨_, _, rfl, q2, r2, q3, r3, ?_, ?_, ?_, ?_⟩
+  · rw [q1, Nat.mod_eq_of_lt hqfit]
+  · rw [r1, Nat.mod_eq_of_lt (Nat.lt_trans hrlt hdlt)]
+  · rw [q1, r1, Nat.mod_eq_of_lt hqfit, Nat.mod_eq_of_lt (Nat.lt_trans hrlt hdlt)]
+    have := Nat.div_add_mod (val n) (val d)
+    rw [Nat.mul_comm] at this; omega
+  · rw [r1, Nat.mod_eq_of_lt (Nat.lt_trans hrlt hdlt)]; exact hrlt
+
 end Mpir.DivZ
